@@ -43,6 +43,8 @@ pub struct Fault {
     pub stage: usize,
     pub at: i64,
     pub counter: Arc<AtomicI64>,
+    /// host id of the replica in which the fault fired (-1 = not fired)
+    pub fired_host: Arc<AtomicI64>,
 }
 
 impl Fault {
@@ -51,6 +53,7 @@ impl Fault {
             stage,
             at,
             counter: Arc::new(AtomicI64::new(0)),
+            fired_host: Arc::new(AtomicI64::new(-1)),
         }
     }
 }
@@ -60,6 +63,8 @@ impl Fault {
 fn tick(f: &Option<Fault>, stage: usize) {
     if let Some(f) = f {
         if f.stage == stage && f.counter.fetch_add(1, Ordering::SeqCst) == f.at {
+            let h = renoir::verif::replica_coord().map(|c| c.host_id as i64).unwrap_or(-2);
+            f.fired_host.store(h, Ordering::SeqCst);
             panic!("injected fault at stage {stage}");
         }
     }
@@ -372,8 +377,12 @@ pub fn parallelism(c: &Cfg) -> u64 {
     }
 }
 
-/// Outcome of one host: Ok(per sink Option<result>) or Err(panic message)
-pub type HostOutcome = Result<Vec<Option<Vec<Vec<i64>>>>, String>;
+/// Outcome of one host: whether `execute_blocking` returned (`Ok`) or panicked (`Err(msg)`), and
+/// what every sink handle yields afterwards (`StreamOutput::get()`), also after a panic.
+pub struct HostOutcome {
+    pub exec: Result<(), String>,
+    pub sinks: Vec<Option<Vec<Vec<i64>>>>,
+}
 
 pub struct RunOutcome {
     /// `None` = the host did not finish before the watchdog fired
@@ -416,6 +425,15 @@ fn host_configs(cfg: &Cfg, uniq: u32) -> Vec<RuntimeConfig> {
 pub fn run_job(job: &str, n: i64, bm: &str, cfg: &Cfg, fault: Option<Fault>, uniq: u32, timeout: Duration) -> RunOutcome {
     let configs = host_configs(cfg, uniq);
     let (tx, rx) = mpsc::channel::<(usize, HostOutcome)>();
+    fn msg_of(e: Box<dyn std::any::Any + Send>) -> String {
+        if let Some(s) = e.downcast_ref::<String>() {
+            s.clone()
+        } else if let Some(s) = e.downcast_ref::<&str>() {
+            s.to_string()
+        } else {
+            "unknown".to_string()
+        }
+    }
     let nh = configs.len();
     for (h, config) in configs.into_iter().enumerate() {
         let tx = tx.clone();
@@ -425,22 +443,18 @@ pub fn run_job(job: &str, n: i64, bm: &str, cfg: &Cfg, fault: Option<Fault>, uni
         std::thread::Builder::new()
             .name(format!("host{h}"))
             .spawn(move || {
-                let r = std::panic::catch_unwind(std::panic::AssertUnwindSafe(|| {
+                let mut getters: Vec<Getter> = vec![];
+                let exec = std::panic::catch_unwind(std::panic::AssertUnwindSafe(|| {
                     let ctx = StreamContext::new(config);
-                    let getters = build(&ctx, &job, n, bm, fault);
+                    getters = build(&ctx, &job, n, bm, fault);
                     ctx.execute_blocking();
-                    getters.into_iter().map(|g| g()).collect::<Vec<_>>()
-                }));
-                let r = r.map_err(|e| {
-                    if let Some(s) = e.downcast_ref::<String>() {
-                        s.clone()
-                    } else if let Some(s) = e.downcast_ref::<&str>() {
-                        s.to_string()
-                    } else {
-                        "unknown".to_string()
-                    }
-                });
-                let _ = tx.send((h, r));
+                }))
+                .map_err(msg_of);
+                let sinks = getters
+                    .into_iter()
+                    .map(|g| std::panic::catch_unwind(std::panic::AssertUnwindSafe(g)).unwrap_or(None))
+                    .collect();
+                let _ = tx.send((h, HostOutcome { exec, sinks }));
             })
             .unwrap();
     }
